@@ -336,10 +336,77 @@ func c20TableWrites() string {
 				continue
 			}
 			why := ""
+			// entries of a published field table reached through a pointer: `t := &fields.list[i]`, or the receiver
+			// of a method of field / structFields; assigning to one of their members (or to an element of a slice
+			// stored in a member) writes into the table every coder of the type shares
+			alias := map[string]bool{}
+			if fd.Recv != nil && len(fd.Recv.List) == 1 && len(fd.Recv.List[0].Names) == 1 {
+				rt := fd.Recv.List[0].Type
+				if st, ok := rt.(*ast.StarExpr); ok {
+					rt = st.X
+				}
+				if id, ok := rt.(*ast.Ident); ok && (id.Name == "field" || id.Name == "structFields") {
+					alias[fd.Recv.List[0].Names[0].Name] = true
+				}
+			}
+			throughList := func(e ast.Expr) bool {
+				found := false
+				ast.Inspect(e, func(n ast.Node) bool {
+					if ix, ok := n.(*ast.IndexExpr); ok && isTableField(ix.X) {
+						found = true
+					}
+					return !found
+				})
+				return found
+			}
+			ast.Inspect(fd.Body, func(n ast.Node) bool {
+				if as, ok := n.(*ast.AssignStmt); ok && len(as.Lhs) == len(as.Rhs) {
+					for i, rhs := range as.Rhs {
+						if u, ok := rhs.(*ast.UnaryExpr); ok && u.Op == token.AND && throughList(u.X) {
+							if id, ok := as.Lhs[i].(*ast.Ident); ok {
+								alias[id.Name] = true
+							}
+						}
+					}
+				}
+				return true
+			})
+			entryWrite := func(l ast.Expr) string {
+				for {
+					switch x := l.(type) {
+					case *ast.IndexExpr:
+						l = x.X
+						continue
+					case *ast.ParenExpr:
+						l = x.X
+						continue
+					case *ast.StarExpr:
+						l = x.X
+						continue
+					}
+					break
+				}
+				sel, ok := l.(*ast.SelectorExpr)
+				if !ok {
+					return ""
+				}
+				if id, ok := sel.X.(*ast.Ident); ok && alias[id.Name] {
+					return sel.Sel.Name
+				}
+				if throughList(sel.X) {
+					return sel.Sel.Name
+				}
+				return ""
+			}
 			ast.Inspect(fd.Body, func(n ast.Node) bool {
 				switch x := n.(type) {
 				case *ast.AssignStmt:
 					for _, l := range x.Lhs {
+						if x.Tok != token.DEFINE {
+							if m := entryWrite(l); m != "" {
+								why = fd.Name.Name + ":writes-field-entry-" + m
+							}
+						}
 						if ix, ok := l.(*ast.IndexExpr); ok && isTableField(ix.X) {
 							why = fd.Name.Name + ":writes-" + ix.X.(*ast.SelectorExpr).Sel.Name
 						}
